@@ -233,6 +233,26 @@ def oracle_loaded_vs_files(pcfg, spec, flags):
     return v
 
 
+def oracle_base_vs_files(pcfg, spec, prop):
+    """default load (no flags): the base structures are the lines of grammar.txt, in order, with their probabilities, each
+    tokenised into its labels with a `C<n>` directly after every `A<n>` - computed here from the spec, not from the loader"""
+    import re
+    want = []
+    for st, p in spec['grammar']:
+        reps = []
+        for tok in re.findall('[A-Z][0-9]*', st):
+            reps.append(tok)
+            if tok[0] == 'A':
+                reps.append('C' + tok[1:])
+        want.append((reps, f2h(float(p))))
+    got = [(list(b['replacements']), f2h(b['prob'])) for b in pcfg.base]
+    if got != want:
+        k = next((i for i, (a, b) in enumerate(zip(got, want)) if a != b), min(len(got), len(want)))
+        return [{'property': prop, 'kind': 'loaded-base-structures-differ-from-file', 'index': k,
+                 'loaded': str(got[k:k + 1]), 'file': str(want[k:k + 1])}]
+    return []
+
+
 def run_case(ruledir, flags, cuts_rng=None, ncuts=0, max_nodes=600, all_cuts=False, spec=None):
     """one ruleset directory -> protocol ops, expected answers, oracle verdicts, statistics"""
     pcfg = common.load_grammar(ruledir, **flags)
